@@ -191,6 +191,12 @@ def gen_cases(rng, tier, h):
     # ---- traces
     for _ in range(120 if quick else 4000):
         cases.append(_trace_case(rng))
+    # the same kind of programs recorded by threads that run one after the other (thread ids may be reused)
+    for _ in range(25 if quick else 600):
+        c = _trace_case(rng)
+        if sum(1 for l in c if l.startswith("thr ")) >= 2:
+            c[-1] = "saveseq " + c[-1].split()[1]
+            cases.append(c)
     bp = _boundary_programs(rng, CHUNK)
     if quick:
         bp = bp[:6] + [rng.pick(bp[6:]) for _ in range(3)]
@@ -234,7 +240,7 @@ def gen_cases(rng, tier, h):
 def nontrivial(case):
     for l in case:
         w = l.split()
-        if w[0] == "save":
+        if w[0] in ("save", "saveseq"):
             return True
         if w[0] in ("img", "imgpat") and int(w[2]) * int(w[3]) >= 2:
             return True
